@@ -43,6 +43,7 @@ def run(ctx):
     ctx.rule(cc.manifest_filter, "R-C10-manifest-exact", tool)
     ctx.rule(seed_identity, tool, cfg, info)
     ctx.rule(cc.base_seed, "R-C10-base-seed", tool, prog.cls("command_line._FeatureProcessorDataset"))
+    ctx.rule(cc.seed_inputs_deterministic, "R-C10-seed-process-independent", tool, prog.cls("command_line._FeatureProcessorDataset"))
     ctx.rule(reseed_first)
     ctx.rule(order, tool)
 
